@@ -1,4 +1,5 @@
 """C09 — k-means: one arg-min routine; all reported quantities of a fit describe one and the same state."""
+from . import layout
 from .core import RuleResult
 from .facts import fn_file, fn_key, fn_loc, walk, strip, peel_refs, pat_bindings, Render
 from .sym import Tracer, Term, Cmp, k, as_term, walk_terms
@@ -464,5 +465,31 @@ def root_local_of(n):
     return None
 
 
+rule_memorder = layout.make_rule("R-C09-memorder", "raw memory-order buffers (as_slice_memory_order, into_raw_vec, as_ptr) of observations, memberships and centroids are used by position only behind an is_standard_layout() test", lambda f: f["d"]["krate"] == "linfa_clustering" and "k_means" in fn_file(f), "linfa-clustering k_means")
+
+def rule_incumbent(ctx):
+    """best-of-n selection (restarts, initialisation candidates): the incumbent cost is updated together with the state it belongs to"""
+    from . import extrema
+    res = RuleResult("R-C09-incumbent", "a best-of-n loop that saves state when a candidate beats the incumbent also updates the incumbent (k-means)")
+    F = ctx.facts()
+    fns = [f for f in F.all_fns() if f["d"]["krate"] == "linfa_clustering" and "k_means" in fn_file(f)]
+    n = 0
+    for fn in fns:
+        for s_ in extrema.incumbents(fn):
+            n += 1
+            key = fn_key(fn)
+            res.instance("%s : incumbent `%s` (%s) guards the saving of %s" % (key, s_["best_name"], s_["evidence"], s_["saved"]))
+            if s_["updated"]:
+                res.ok()
+            else:
+                res.violate("%s : incumbent-not-updated:%s" % (key, s_["best_name"]), "`%s` is compared with every candidate and %s is saved when the candidate wins, but `%s` itself is never assigned in the loop: every candidate is compared with the first one, so a later, worse candidate replaces a better one saved before it" % (s_["best_name"], ", ".join(s_["saved"]), s_["best_name"]), fn_loc(fn, s_["node"]["ln"]))
+    res.instance("%d functions of k-means scanned, %d best-of-n tests" % (len(fns), n))
+    if fns:
+        res.ok()
+    else:
+        res.missing_anchor("functions of k-means")
+    return res.finish(1)
+
+
 def rules(tier):
-    return [rule_argmin, rule_best, rule_fresh, rule_init]
+    return [rule_argmin, rule_best, rule_fresh, rule_init, rule_memorder, rule_incumbent]
